@@ -21,11 +21,13 @@ HARNESS = [vf.kit(PKG, "c21"),
            ("tokenauth/tokens_export.go", "internal/language/tokens/zz_verif_c21_export.go")]
 
 # generator configs: (cfg, simulate num quick/thorough, behaviours replayed quick/thorough)
-GENS = [("GenCore", 60, 400, 36, 700),
-        ("GenInputs", 40, 200, 16, 200),
-        ("GenRace", 200, 1200, 8, 80),
-        ("GenUnrev", 100, 600, 8, 80),
-        ("GenHits", 600, 3000, 8, 80),
+GENS = [("GenCore", 60, 400, 30, 700),
+        ("GenInputs", 40, 200, 14, 200),
+        ("GenRace", 200, 1200, 6, 80),
+        ("GenRevCached", 2000, 8000, 6, 60),
+        ("GenUnrevDel", 2000, 8000, 5, 50),
+        ("GenUnrevFl", 2000, 8000, 5, 50),
+        ("GenHits", 600, 3000, 6, 80),
         ("GenTick", 600, 3000, 6, 48)]
 
 
@@ -109,7 +111,7 @@ def run():
         ov = _private_overlay(sd, vf.make_overlay(sd, HARNESS))
         binp = os.path.join(sd, "c21.test")
         W = 6 if thorough else 4
-        with ThreadPoolExecutor(max_workers=8) as ex:
+        with ThreadPoolExecutor(max_workers=12) as ex:
             f_bin = ex.submit(vf.go_test_compile, ov, "./" + PKG + "/", binp)
             f_mc = ex.submit(vf.tlc, "TokenAuth", "TokenAuth", "TokenAuth_MC.cfg" if thorough else "TokenAuth_MCq.cfg", sd,
                              workers=W, timeout=1500)
@@ -190,7 +192,7 @@ def run():
         ntick = tags.count("GenTick")
         if not chk.cands and total["inconclusive"] > max(1, ntick // 2):
             raise vf.NoVerdict("%d behaviours stayed inconclusive (real time overtook them on every attempt; machine too loaded)" % total["inconclusive"])
-        for need in ("Find", "Hit", "Unwrap", "Add", "BlInsert", "BlPurgeBL", "BlPurgeTok", "Tick", "DelCache|FlDB"):
+        for need in ("Find", "Hit", "Unwrap", "Add", "BlInsert", "BlPurgeBL", "BlPurgeTok", "Tick", "DelCache", "FlDB"):
             if not chk.cands and not any(total["act_counts"].get(a) for a in need.split("|")):
                 raise vf.NoVerdict("vacuity: no replayed behaviour contains the step %s" % need)
         chk.cov["traces_validated_against_impl"] += total["behaviours"]
@@ -241,8 +243,8 @@ def run():
             raise vf.NoVerdict("F self-test failed: known-bad / out-of-domain records not recognised: %s %s %s" % (n2, bad2, notwf2))
         chk.cov["binding_selftest"] = ("R: perturbed expected TokenCache after Add was reported as a mismatch; "
                                        "F: known-bad mutation record flagged, out-of-domain record excluded")
-        chk.cov["rule"] = ("behaviours = TLC simulation of TokenAuth_Gen under 6 generator configs (general, input classes, and focused on the "
-                           "revocation race / un-revocation / repeated cache hits / expiry), sampled by seed; every step forced on the real code via gates; "
+        chk.cov["rule"] = ("behaviours = TLC simulation of TokenAuth_Gen under 8 generator configs (general, input classes, and focused on the "
+                           "revocation race / revocation of a cached token / un-revocation by Delete and by Flush / repeated cache hits / expiry), sampled by seed; every step forced on the real code via gates; "
                            "non-trivial+distinct = distinct (spec state before, step) pairs executed; evaluations = steps compared + mutation records judged")
         chk.cov["exhaustive"] = False
     return chk.finish()
